@@ -100,52 +100,38 @@ def run(chk):
         if not evs:
             raise Broken("primary evaluate not instantiated for " + cls)
         check_initial_guess(chk, F, E, cls, gi, roles, members, flags_member, dim, expected_flags, dirty, count_member)
-        for f in evs:
+        # evaluate(): decode and encode decided on the algebraic summary of each instantiation (evalsum / evalrules):
+        # full enumeration of the flag assignments for the first instantiation, all-set / none-set for its siblings
+        # (quick tier), full for every instantiation in the thorough tier
+        from .. import evalrules
+        from . import evalctx
+        ctx = evalctx.context(F, E, cls, roles, members)
+        R2 = [("decode-times", "duration i handed to the spline = toTime(x[i]), i < N"),
+              ("decode-waypoints", "waypoints handed to the spline = reference with row point_index <- toPhysical(x[offset, offset+dof)) per layout entry"),
+              ("decode-before-update", "decoding is complete before the spline is updated and untouched afterwards"),
+              ("update-once", "the workspace spline is updated exactly once"),
+              ("flags-consulted", "exactly the derivative flags the spline order has are consulted"),
+              ("encode-zero", "grad_out is sized to x and zeroed before its slots are written"),
+              ("encode-times", "gradient slot i <- backward(x[i], duration i, dCost/dT_i), i < N"),
+              ("encode-spatial", "gradient slots [offset, offset+dof) <- backwardGrad(x slice, gradient of that very waypoint, its index)"),
+              ("encode-blocks", "gradient block j (j-th set flag, canonical order) at derivative offset + j*DIM <- gradient of that boundary derivative")]
+        for k_, f in enumerate(evs):
             chk.saw(f)
-            sc = Scope(f)
-            for n in walk(f["body"]):
-                if n.get("k") == "decl" and (n["ty"].get("c") in ("int", "double", "bool", "enum") or n.get("bind") == "alias"):
-                    sc.bind_local(n)
-            trs = find_traversals(f)
-            want_n = 1 if f is gi else 2
-            inst = f["name"] + ("" if f is gi else f["full"].split("evaluate")[1][:50])
-            if len(trs) != want_n:
-                chk.ob("C09-R2", "%s %s: derivative-block traversals found" % (cls, inst), False, loc(f), "%d traversals" % len(trs), construct="%s/%s/traversals" % (cls, inst))
-                continue
-            for gen, op, call in trs:
-                spec = gen["specs"][0]
-                sq = guarded_sequence(spec["body"], sc, flags_member)
-                flags = [a for a, _, _ in sq]
-                targets = [c for _, _, c in sq]
-                role = classify_op(op, sc, dim)
-                chk.ob("C09-R2", "%s %s %s traversal visits the order-gated flags in order" % (cls, inst, role["kind"]), flags == expected_flags, loc(f, gen), "visits %s" % flags,
-                       construct="%s/%s/%s/order" % (cls, inst, role["kind"]))
-                tmap = GRAD_OF_FLAG if role["kind"] == "gradient" else FIELD_OF_FLAG
-                okt = all(t.endswith("." + tmap[fl]) for fl, t in zip(flags, targets))
-                bases = {t[:-(len(tmap[fl]) + 1)] for fl, t in zip(flags, targets)}
-                chk.ob("C09-R2", "%s %s %s traversal pairs each flag with its boundary quantity" % (cls, inst, role["kind"]), okt and len(bases) <= 1, loc(f, gen),
-                       str(list(zip(flags, targets))), construct="%s/%s/%s/pairing" % (cls, inst, role["kind"]))
-                chk.ob("C09-R2", "%s %s %s traversal moves DIM slots per block" % (cls, inst, role["kind"]), role["ok"], loc(f, op), role["detail"], construct="%s/%s/%s/slots" % (cls, inst, role["kind"]))
-                # the running offset starts at the derivative offset right before the traversal
-                off_ok = offset_starts_at(f, call, role.get("offset_id"), outs)
-                chk.ob("C09-R2", "%s %s %s traversal starts at the derivative offset" % (cls, inst, role["kind"]), off_ok, loc(f, call), "", construct="%s/%s/%s/start" % (cls, inst, role["kind"]))
-                if role["kind"] in ("decode", "encode"):
-                    # R4: the boundary struct being traversed is a copy of the reference
-                    b0 = next(iter(bases)) if bases else None
-                    okp = False
-                    for n in walk(f["body"]):
-                        if n.get("k") == "decl" and "%" + n["name"] == b0:
-                            okp = False
-                    okp = b0 is not None and b0.startswith("this.") is False and is_copy_of_member(f, b0, sc)
-                    chk.ob("C09-R4", "%s %s boundary state is a copy of the reference, only flagged blocks are overwritten" % (cls, inst), okp, loc(f, gen),
-                           "traversed object %s" % b0, construct="%s/%s/%s/pinning-bc" % (cls, inst, role["kind"]))
-            check_spatial_and_time(chk, F, cls, f, sc, f is gi)
-        # block counter
-        cnt = F.func1(cls, "countOptimizedDerivativeBlocks")
-        chk.saw(cnt)
-        sq = guarded_sequence(cnt["body"], Scope(cnt), flags_member)
-        chk.ob("C09-R2", "%s block counter counts exactly the flags the traversals visit" % cls, [a for a, _, _ in sq] == expected_flags and all(k == "count" for _, k, _ in sq), loc(cnt),
-               str(sq), construct=cls + "/counter")
+            inst = f["name"] + f["full"].split("evaluate")[1][:50]
+            c2 = dict(ctx, void="VoidWaypointsCost" in f["full"])
+            V, npaths = evalrules.analyse_cached(F, cls, f, c2, full=(k_ == 0 or chk.tier == "thorough"))
+            for rid, text in R2:
+                okv, detv = V.v[rid]
+                chk.ob("C09-R2", "%s %s: %s" % (cls, inst, text), okv, loc(f), detv or "%d paths" % npaths, construct="%s/%s/%s" % (cls, inst, rid))
+            okv, detv = V.v["decode-bc"]
+            chk.ob("C09-R4", "%s %s: boundary state handed to the spline = reference, with exactly the flagged blocks taken from x (block j at derivative offset + j*DIM); start time = reference" % (cls, inst),
+                   okv, loc(f), detv or "%d paths" % npaths, construct="%s/%s/pinning-bc" % (cls, inst))
+            okv, detv = V.v["reference-untouched"]
+            chk.ob("C09-R4", "%s %s: evaluate() leaves the reference state, the flags and the cached layout untouched" % (cls, inst), okv, loc(f), detv or "%d paths" % npaths,
+                   construct="%s/%s/reference-untouched" % (cls, inst))
+            okv, detv = V.v["decode-waypoints"]
+            chk.ob("C09-R4", "%s %s: decoded waypoints start as a copy of the reference; only layout entries are overwritten" % (cls, inst), okv, loc(f), detv or "%d paths" % npaths,
+                   construct="%s/%s/pinning-waypoints" % (cls, inst))
         # ---------------------------------------------------------------- R3
         for f in F.funcs(cls):
             if f.get("access") != "public" or f.get("static") or f.get("kind") == "dtor":
@@ -321,6 +307,7 @@ def map_hook(c, e, env, I):
             args.append(v)
         if all(isinstance(a, sp.Basic) for a in args):
             return sp.Function(MAP_API[nm])(*args)
+        raise Unsupported("map call %s with argument kinds %s (line %s)" % (nm, [type(a).__name__ for a in args], e.get("line")))
     return NotImplemented
 
 
